@@ -15,7 +15,14 @@ use std::path::PathBuf;
 use std::sync::Arc;
 use vh_common::{Args, Rng, guarded};
 
-const ATOMS: &[&str] = &["a", "b", "c", "lib", "src", "init", "m", "x.y"];
+const ATOMS: &[&str] = &[
+    "a", "b", "c", "lib", "src", "init", "m", "x.y", "util", "log", "vendor_packages", "treesitter_context_ext", "ü", "数据", "naïve_mod", "zz",
+    "q", "plugin_manager_core_x",
+];
+/// short and long directory names (1 .. ~22 characters, some multi-byte: byte length != char length)
+const SHORT_DIRS: &[&str] = &["a", "b", "c", "x", "q", "ü", "zz"];
+const LONG_DIRS: &[&str] = &["vendor_packages", "treesitter_context_ext", "plugin_manager_core_x", "数据数据数据数据", "naïve_module_directory", "third_party_long"];
+const LEAVES: &[&str] = &["log", "util", "m", "core", "init_x", "日志"];
 const PATTERN_SETS: &[&[&str]] = &[
     &["?.lua", "?/init.lua"],
     &["?.lua", "?/init.lua"],
@@ -237,6 +244,51 @@ fn gen_query(rng: &mut Rng, names: &[String]) -> String {
     }
 }
 
+
+/// several suffix candidates for one required path at different depths, with the depth order and the text-length
+/// order deliberately decorrelated (a shallow candidate under a LONG directory name, deep candidates under SHORT
+/// ones), with or without an exact match.  Returns (file component lists under root "w", require strings).
+fn gen_fuzzy_layout(rng: &mut Rng) -> (Vec<Vec<String>>, Vec<String>) {
+    let nseg = rng.range(1, 2);
+    let mut suffix: Vec<String> = Vec::new();
+    for i in 0..nseg {
+        suffix.push(if i + 1 == nseg { rng.pick(LEAVES).to_string() } else { rng.pick(&["util", "core", "ü", "net"]).to_string() });
+    }
+    let file_of = |prefix: Vec<String>| -> Vec<String> {
+        let mut c = vec!["w".to_string()];
+        c.extend(prefix);
+        c.extend(suffix[..suffix.len() - 1].iter().cloned());
+        c.push(format!("{}.lua", suffix[suffix.len() - 1]));
+        c
+    };
+    let mut files = Vec::new();
+    // shallow, long text
+    files.push(file_of(vec![rng.pick(LONG_DIRS).to_string()]));
+    // deep, short text (depth 2 or 3)
+    let depth = rng.range(2, 3);
+    files.push(file_of((0..depth).map(|_| rng.pick(SHORT_DIRS).to_string()).collect()));
+    if rng.chance(1, 2) {
+        // a second shallow candidate: the lexicographic tie-break among equal depths
+        files.push(file_of(vec![if rng.chance(1, 2) { rng.pick(LONG_DIRS).to_string() } else { rng.pick(SHORT_DIRS).to_string() }]));
+    }
+    if rng.chance(1, 3) {
+        files.push(file_of((0..rng.range(2, 4)).map(|_| rng.pick(SHORT_DIRS).to_string()).collect()));
+    }
+    if rng.chance(1, 3) {
+        files.push(file_of(vec![])); // the exact match
+    }
+    files.sort();
+    files.dedup();
+    // registration order must not matter: shuffle
+    for i in (1..files.len()).rev() {
+        files.swap(i, rng.below(i + 1));
+    }
+    let q = suffix.join(".");
+    let mut queries = vec![q.clone(), q.replace('.', "/")];
+    queries.push(suffix[suffix.len() - 1].clone());
+    (files, queries)
+}
+
 fn gen_ops(rng: &mut Rng, cfg: &Cfg, nops: usize) -> Vec<Value> {
     let mut ops = Vec::new();
     let nfiles = rng.range(2, 6) as u32;
@@ -285,6 +337,34 @@ fn gen_ops(rng: &mut Rng, cfg: &Cfg, nops: usize) -> Vec<Value> {
         ops.push(json!(["find", gen_query(rng, &names)]));
     }
     ops
+}
+
+
+fn gen_layout_ops(rng: &mut Rng) -> Vec<Value> {
+    let (files, queries) = gen_fuzzy_layout(rng);
+    let mut ops = Vec::new();
+    for (i, f) in files.iter().enumerate() {
+        ops.push(json!(["addpath", i + 1, f]));
+    }
+    for q in &queries {
+        ops.push(json!(["find", q]));
+    }
+    // remove the current winner's competitors one by one and ask again
+    let k = rng.below(files.len()) + 1;
+    ops.push(json!(["remove", k]));
+    for q in &queries {
+        ops.push(json!(["find", q]));
+    }
+    ops
+}
+
+fn layout_cfg(rng: &mut Rng) -> Cfg {
+    Cfg {
+        patterns: vec!["?.lua".into(), "?/init.lua".into()],
+        roots: vec![Root { comps: vec!["w".into()], ws: 1, pkg: None }],
+        fuzzy: !rng.chance(1, 8),
+        map: vec![],
+    }
 }
 
 // ------------------------------------------------------------------------------------------------ search (end to end)
@@ -590,6 +670,25 @@ fn run_search_case(case: &Value, out: &mut Vec<Value>) -> (usize, bool) {
                     other => report("exact-not-preferred", format!("step {si}: require({q:?}): a live file has exactly this module name but the answer is {other:?}")),
                 }
             }
+            // O6: the documented fuzzy rule: no exact match (original or mapped) => among the live modules whose name
+            // ends with `.<path>`, the one with the FEWEST leading segments wins, ties by the smaller full name
+            if cfg.fuzzy && !has_exact_orig && !has_exact_mapped {
+                let pick = |path: &str| -> Option<String> {
+                    let suf = format!(".{path}");
+                    name_of
+                        .values()
+                        .filter(|n| n.ends_with(&suf))
+                        .map(|n| (n[..n.len() - suf.len()].split('.').filter(|x| !x.is_empty()).count(), n.clone()))
+                        .min()
+                        .map(|x| x.1)
+                };
+                let expected = if qm != qn { pick(&qm).or_else(|| pick(&qn)) } else { pick(&qn) };
+                let got = fm.and_then(|f| name_of.get(&f)).cloned();
+                // candidates that share one full name are interchangeable for this oracle
+                if expected.is_some() && got != expected && fm.map(|f| name_of.contains_key(&f)).unwrap_or(true) {
+                    report("fuzzy-not-closest", format!("step {si}: require({q:?}) has no exact match; the closest suffix match (fewest leading segments, then smallest name) is {expected:?} but the answer is {got:?} (live modules: {:?})", name_of.values().collect::<Vec<_>>()));
+                }
+            }
             // O3: determinism when asked twice, and stability of exact answers while the file stays
             let again = midx.find_module(q).map(|m| m.file_id.id);
             if again != *fm {
@@ -617,7 +716,27 @@ fn run_search_case(case: &Value, out: &mut Vec<Value>) -> (usize, bool) {
     (checks, nontrivial)
 }
 
+fn gen_layout_search_case(rng: &mut Rng) -> Value {
+    let cfg = layout_cfg(rng);
+    let (files, queries) = gen_fuzzy_layout(rng);
+    let n = files.len();
+    let mut steps = vec![if rng.chance(1, 2) { json!(["addall"]) } else { json!(["add", 0]) }];
+    if steps[0][0] == "add" {
+        for i in 1..n {
+            steps.push(json!(["add", i]));
+        }
+    }
+    for _ in 0..rng.range(1, 3) {
+        let i = rng.below(n);
+        steps.push(if rng.chance(2, 3) { json!(["remove", i]) } else { json!(["add", i]) });
+    }
+    json!({"cfg": cfg_json(&cfg), "files": files, "queries": queries, "steps": steps})
+}
+
 fn gen_search_case(rng: &mut Rng) -> Value {
+    if rng.chance(1, 3) {
+        return gen_layout_search_case(rng);
+    }
     let cfg = gen_cfg(rng);
     let nfiles = rng.range(2, 6);
     let mut files: Vec<Vec<String>> = Vec::new();
@@ -762,7 +881,14 @@ fn main() {
                     }
                 }
             }
-            for _ in 0..n {
+            for i in 0..n {
+                if i % 3 == 0 {
+                    // suffix candidates at different depths, depth order and text-length order decorrelated
+                    let cfg = layout_cfg(&mut rng);
+                    let ops = gen_layout_ops(&mut rng);
+                    println!("{}", run_corr_case(&cfg, &ops));
+                    continue;
+                }
                 let cfg = gen_cfg(&mut rng);
                 let nops = rng.range(4, 14);
                 let ops = gen_ops(&mut rng, &cfg, nops);
